@@ -470,14 +470,25 @@ def compile_ast(
         df = df.select(*left_col_names)
         right_df = right_df.select(*left_col_names)
 
-        if df.collect_schema() != right_df.collect_schema():
+        left_schema, right_schema = df.collect_schema(), right_df.collect_schema()
+        if left_schema != right_schema:
             # The column types are compatible (checked by the verb) but not equal, e.g.
             # an Int and a Float column: convert to the common type.
-            df = pl.concat([df, right_df], how="vertical_relaxed")
-            if nd.distinct:
-                df = df.unique()
-            name_in_df = {uid: name_in_df[uid] for uid in select}
-            return df, name_in_df, select, partition_by
+            common = {}
+            for name in left_col_names:
+                lt, rt = left_schema[name], right_schema[name]
+                if lt == rt:
+                    continue
+                if lt.is_integer() and rt.is_integer():
+                    common[name] = pl.Int64
+                elif lt.is_numeric() and rt.is_numeric():
+                    common[name] = pl.Float64
+                elif lt == pl.Null or rt == pl.Null:
+                    common[name] = rt if lt == pl.Null else lt
+                else:
+                    common[name] = pl.String
+            df = df.cast(common)
+            right_df = right_df.cast(common)
 
         # Use pl.union if available (Polars >= 1.35), otherwise use pl.concat
         # pl.union is faster than pl.concat for union operations
